@@ -6,7 +6,6 @@ Driver for C33.  Ops (payloads hex encoded, `-` = empty):
 * `pdp <hex>`     → `PANIC` | `err=<kind>` | `ok off=… epoch=… pl=… prev=… l=… payload=…`
 * `handle <hex>`  → `PANIC` | `nopanic`   (handleRedisClientMessage: panics iff extractPushData does — never, `extract_total`)
 * `cls <hex>`     → `class=<none|pHeaderShort|prevLenNegative|prevLenEqRemaining|payloadLenNegative>` (model only)
-* `ovf <hex>`     → `class=<none|prevLenMaxInt>` — the one shape on which the current code still panics (model only)
 * `pre <hex>`     → like `ext`, for the code before commit e8dc9ebe (model only)
 * `build <kind> <off> <epoch> <prev> <payload>` → `frame=<hex>` | `frame=none` (model only)
 -/
@@ -60,9 +59,6 @@ def step (line : String) : String :=
     | none => "bad-op"
   | ["handle", h] => match unhex h with
     | some d => if (extractPushData d).isPanic then "PANIC" else "nopanic"
-    | none => "bad-op"
-  | ["ovf", h] => match unhex h with
-    | some d => if overflowClass d then "class=prevLenMaxInt" else "class=none"
     | none => "bad-op"
   | ["cls", h] => match unhex h with
     | some d => s!"class={className (panicClass d)}"
